@@ -198,3 +198,39 @@ Section Oracle.
         ++ map (fun e => desc_blk (snd e)) (s_desc st).
   Definition all_blocks (h : hs) : list (Z * Z) := map i_blk (hs_live h) ++ free_blocks (hs_st h).
 End Oracle.
+
+(** Epochs: myth_fini followed by myth_init_ex(attr) with a possibly different default stack
+    size.  myth_fini frees the worker environments and the per-class list arrays
+    (myth_fini_body, myth_flmalloc_fini_worker); myth_setup_worker starts every worker with empty
+    lists: whatever was cached is dropped (the memory stays mapped and is never handed out
+    again).  [epoch_reset] is that: all lists empty, regions and memory unchanged.  An epoch is
+    (default stack size, history); a new epoch may start only when nothing is live
+    (finalising the library under running threads is outside its contract).  [erun] returns
+    the final state, the blocks dropped so far (ghost, with the extents they had in their
+    epoch) and the default stack size in force. *)
+Definition epoch_reset (st : sstate) : sstate :=
+  mkS (mkFl [] (fl_regs (s_fl st))) [] [] (s_mem st).
+
+Definition gsz_valid (g : Z) : bool := (16 <=? g) && (g + 4095 <? 2 ^ 64).
+
+Section Epochs.
+  Variable mmap : list region -> Z -> Z.
+  Variable dsz : Z.
+
+  Fixpoint erun (epochs : list (Z * list sop)) (h : hs) (dropped : list (Z * Z)) (g : Z)
+    : option (hs * list (Z * Z) * Z) :=
+    match epochs with
+    | [] => Some (h, dropped, g)
+    | (g', ops) :: rest =>
+        match hs_live h with
+        | [] =>
+            if gsz_valid g' then
+              match srun mmap g' dsz ops (mkHs (epoch_reset (hs_st h)) []) with
+              | Some h' => erun rest h' (free_blocks g dsz (hs_st h) ++ dropped) g'
+              | None => None
+              end
+            else None
+        | _ :: _ => None
+        end
+    end.
+End Epochs.
